@@ -79,6 +79,7 @@ def jobs(tier):
     q = tier == "quick"
     return [
         {"kind": "broker", "K": 6 if q else 8, "noreply": False},
+        {"kind": "broker", "K": 5 if q else 7, "noreply": False, "reentrant": True},
         {"kind": "broker", "K": 5 if q else 7, "noreply": True},
         {"kind": "bootstrap", "K": 5 if q else 6},
     ]
@@ -109,7 +110,7 @@ def _broker(job):
         bc = _KafkaBrokerClient(clock, net.endpoint_factory, BrokerMetadata(1, "h", 9092), "cid", lambda n: float(n))
         reqs = []
         st = {"closed": False, "close_d": None, "serial": 0}
-        ctx.sig("broker noreply=%s" % job["noreply"])
+        ctx.sig("broker noreply=%s reentrant=%s" % (job["noreply"], bool(job.get("reentrant"))))
 
         def cur_transport():
             ts = net.open_transports()
@@ -130,6 +131,32 @@ def _broker(job):
         def on_res(v, r):
             r.res.append(v)
             ctx.check(len(r.res) == 1, "completes-at-most-once", "request %d fired %d times" % (r.cid, len(r.res)))
+            # the application may re-enter the broker client from the result callback
+            act = getattr(r, "cb_action", 0)
+            if act and not isinstance(v, Failure):
+                r.cb_action = 0
+                try:
+                    if act == 1 and not st["closed"]:
+                        ctx.log("close-from-callback", r.cid)
+                        st["closed"] = True
+                        st["reentrant_close"] = True
+                        unfired = [x for x in reqs if not x.res]
+                        st["close_d"] = []
+                        bc.close().addBoth(st["close_d"].append)
+                        for x in unfired:
+                            if not x.cancelled:
+                                ctx.check(len(x.res) == 1 and isinstance(x.res[0], Failure) and x.res[0].check(ClientError), "close-fails-all-pending", "close() from a response callback: request %d -> %r" % (x.cid, x.res))
+                        ctx.check(not bc.requests, "close-fails-all-pending", "requests left in the table after close(): %r" % (list(bc.requests),))
+                    elif act == 2 and not st["closed"]:
+                        ctx.log("reissue-from-callback", r.cid)
+                        r2 = Req(r.cid, True)
+                        r2.payload = r.payload
+                        r2.d = bc.makeRequest(r.cid, r.payload)  # the id is free again: its request has completed
+                        r2.d.addErrback(lambda f: None)
+                except Exception as e:  # noqa
+                    import traceback
+
+                    ctx.check(False, "no-exception-escapes", "re-entering the broker client from a response callback: %r %s" % (e, traceback.format_exc()[-600:]))
             return None
 
         def expect_fired(before, exp, what):
@@ -164,6 +191,8 @@ def _broker(job):
                     if job["noreply"] and ctx.choose("expect", 2) == 1:
                         expect = False
                     r = Req(cid, expect)
+                    if job.get("reentrant") and expect:
+                        r.cb_action = ctx.choose("cb_action", 3)
                     reqs.append(r)
                     ctx.log("request", cid, expect)
                     r.d = d = bc.makeRequest(cid, r.payload, expectResponse=expect)
@@ -225,7 +254,10 @@ def _broker(job):
                     else:
                         second = struct.pack(">i", 998) + b"junk"
                         tr.deliver(data + frame(second))
-                    expect_fired(before, [r.cid for r in target], "frame id %d" % cid)
+                    if st.get("reentrant_close") or any(getattr(x, "reissued", False) for x in reqs):
+                        pass  # the callback closed the client: the other pending requests were failed by close() (checked there)
+                    else:
+                        expect_fired(before, [r.cid for r in target], "frame id %d" % cid)
                     for r in target:
                         if r.res:
                             v = r.res[0]
